@@ -430,6 +430,10 @@ def check_strict_frame(c: Contract, I: Interp, p, args):
             key = ("container_write", getattr(ev[1], "name", "?"), "")
         elif ev[0] == "shared_container_write":
             key = ("shared_container_write", ev[1], "")
+        elif ev[0] == "published_container_write":
+            key = ("write_after_publication", ev[2], "(in-place change of an object already bound to shared state)")
+        elif ev[0] == "published_write":
+            key = ("write_after_publication", getattr(ev[1], "published", "?"), ev[2])
         else:
             continue
         if key in seen:
